@@ -361,7 +361,51 @@ def rule_metric_copies(ctx: Ctx) -> None:
         raise AnalysisError("effect.inplace-on-input: no mutator call found in metrics")
 
 
+def rule_normalised_receiver(ctx: Ctx) -> None:
+    """metric.receiver: a cost metric that flattens a copy of the circuit (`c = circuit.copy(); c.unwrap_nodes(); c.remove_identity()`)
+    reads the circuit's structure (label index, DAG, gate histories) from that copy only.  A guard or a count taken from the caller's
+    still-wrapped circuit disagrees with the copy: gates that occur only inside wrappers are in the copy's index, not the original's."""
+    repo = ctx.repo
+    m = repo.module(METRICS)
+    mb = repo.cls("MetricBase", METRICS)
+    INVARIANT = {"n_emitters", "n_photons", "n_classical", "n_quantum", "copy"}
+    n = 0
+    for ci in repo.subclasses(mb, strict=True):
+        if ci.module.rel != METRICS or not ci.name.startswith("Circuit"):
+            continue
+        ev = ci.methods().get("evaluate")
+        if ev is None:
+            continue
+        ps = func_params(ev)
+        if len(ps) < 3:
+            continue
+        cp = ps[2]
+        copies = [a for a in ast.walk(ev) if isinstance(a, ast.Assign) and len(a.targets) == 1 and isinstance(a.targets[0], ast.Name)
+                  and isinstance(a.value, ast.Call) and norm(a.value.func) == f"{cp}.copy"]
+        if not copies:
+            continue
+        cname_ = copies[0].targets[0].id
+        flattened = any(isinstance(c_, ast.Call) and isinstance(c_.func, ast.Attribute) and norm(c_.func.value) == cname_ and c_.func.attr in ("unwrap_nodes", "remove_identity")
+                        for c_ in ast.walk(ev))
+        if not flattened or cname_ == cp:
+            continue
+        n += 1
+        ctx.touch(m, ev)
+        bad = [x for x in ast.walk(ev) if isinstance(x, ast.Attribute) and isinstance(x.value, ast.Name) and x.value.id == cp and x.attr not in INVARIANT
+               and x.lineno > copies[0].lineno]
+        if bad:
+            ctx.fail("metric.receiver", m, bad[0],
+                     f"{ci.name}.evaluate flattens the copy `{cname_}` but reads `{short(bad[0])}` from the caller's circuit `{cp}`, which still holds the "
+                     f"gate wrappers: a gate type that occurs only inside wrappers is in `{cname_}`'s label index and not in `{cp}`'s, so it is skipped",
+                     func=f"{ci.name}.evaluate", construct=f"{ci.name}.evaluate: structure read from the un-flattened circuit")
+        else:
+            ctx.ok("metric.receiver", m, copies[0], what=f"{ci.name}: structure read from the flattened copy only")
+    if n == 0:
+        ctx.ok_abstract("metric.receiver", "no metric flattens a separately named copy (they rebind the parameter itself)")
+
+
 def run(ctx: Ctx) -> None:
+    rule_normalised_receiver(ctx)
     from ..rules import memo as _memo
     _memo.rule_memo_sound(ctx, ['graphiq/metrics.py', 'graphiq/circuit/circuit_dag.py'])
     from .c12 import rule_nodekeys
@@ -378,7 +422,18 @@ def run(ctx: Ctx) -> None:
     ctx.floor("effect.inplace-on-input", 8)
 
 
+def _depth_memo(src: str) -> str:
+    a = "        self.edge_dict = {}\n"
+    b = "        return max(depth) + 1\n"
+    if src.count(a) != 1 or src.count(b) != 1:
+        raise LookupError("knock-out anchor text missing")
+    src = src.replace(a, a + "        self._depth_memo = {}\n")
+    return src.replace(b, "        if root_node not in self._depth_memo:\n            self._depth_memo[root_node] = max(depth) + 1\n        return self._depth_memo[root_node]\n")
+
+
 KNOCKOUTS = [
+    Knockout("emit-depth-history-from-original", METRICS, sub_once("            e_depth[e_i] = len(c.reg_gate_history(reg=e_i)[1]) - 2", "            e_depth[e_i] = len(circuit.reg_gate_history(reg=e_i)[1]) - 2"), "metric.receiver", "un-flattened circuit"),
+    Knockout("depth-memo-never-reset", "graphiq/circuit/circuit_dag.py", _depth_memo, "memo.sound", "key does not determine"),
     Knockout("emit-depth-offset", METRICS, sub_once("e_depth[e_i] = len(c.reg_gate_history(reg=e_i)[1]) - 2", "e_depth[e_i] = len(c.reg_gate_history(reg=e_i)[1]) - 1"), "metric.source", "offset"),
     Knockout("emit-depth-photon-wire", METRICS, sub_once("e_depth[e_i] = len(c.reg_gate_history(reg=e_i)[1]) - 2", "e_depth[e_i] = len(c.reg_gate_history(reg=e_i, reg_type='p')[1]) - 2"), "metric.source", "per-emitter"),
     Knockout("identity-live-iteration", "graphiq/circuit/circuit_dag.py", sub_once('identity_list = self.node_dict["Identity"].copy()', 'identity_list = self.node_dict["Identity"]'), "iter.snapshot", "iterated element"),
